@@ -77,7 +77,8 @@ class EngineBase:
                     return False
                 return any(_vclass(v) == vclass for v in r.get('violations', []))
 
-            minplan, tried = shrink(plan, still_fails, self.shrink_candidates, budget=budget)
+            minplan, tried = shrink(plan, still_fails, self.shrink_candidates, budget=budget,
+                                    time_budget_s=getattr(self, 'shrink_time_budget_s', 240.0))
             return (minplan, tried, self.run_plan(minplan))
         return self.custom_job(kind, payload)
 
